@@ -97,6 +97,12 @@ def run(ck, prog, tier, load):
         r = hr.reach(hr.succ[bb], removed_edges=es)
         ok2 = bool(es) and not (set(body_polls) & r)
         ck.ob("C08-b.next-chunk-only-when-empty", "handle_response", ok2, hr, bb, "after sending, the next body chunk is polled only once the current chunk is empty (no bytes of it are dropped)")
+        # ... and the amount reserved for the remainder is computed from what is left, not from the original chunk:
+        # a reservation larger than the bytes left keeps connection-level window assigned to this stream
+        lens = [b2 for b2, t2 in hr.calls(r"Bytes::len$") if any(hr.dominates(b2, r_) for r_ in res)]
+        ok3, wit3 = hr.must_pass_after(bb, res, lens) if lens else (False, None)
+        ck.ob("C08-b.remainder-reservation-fresh", "handle_response", ok3, hr, bb,
+              "between sending part of a chunk and the next reserve_capacity the remaining length is read again (chunk.len() feeds the reservation on every loop round)", witness=hr.path_lines(wit3))
         # the remainder goes round the capacity loop again
         r2 = hr.reach(hr.succ[bb], removed_edges=edges_where(hr, chunk_empty(True)))
         ck.ob("C08-b.remainder-resent", "handle_response", bool(set(res) & r2), hr, bb, "with bytes left in the chunk control returns to reserve_capacity")
